@@ -5,7 +5,8 @@ Part A: calling every public operation of `pyipmi.Ipmi` on the fault interface
 Part B: the check -- exhaustive single-fault injection (every operation x every request position
         x every code of the tier's alphabet), directed and sampled double faults, the property
         oracle, and the correspondence with the Lean models (skeleton trace inclusion, skeleton
-        replay under faults, the handler models).
+        replay under faults, the handler models, the SEL / SDR operation models of
+        lean/PyIpmi/Model/ProgOps.lean: outcome, returned bytes and the full request trace).
 """
 import contextlib
 import inspect
@@ -32,12 +33,20 @@ RULE = ('every public method of the live pyipmi.Ipmi class is called (arguments 
         'A case is distinct by (operation, recipe, device variant, fault list) and non-trivial when the fault '
         'position is reached.')
 ASSUMPTIONS = [
-    'Prog models of the handlers (lean/PyIpmi/Model/Prog.lean) are hand-written and tied by the correspondence run; '
-    'skeletons and shape classes are regenerated from the AST each run (Gen/ApiShapes.lean)',
-    'the theorems cover operations of shape checked / nosend (every resolution of their skeleton) and the handler '
-    'models sdrChunk, clearRepository, andWait, uploadBinary, readFru, componentProps; operations of shape `other` '
-    'and the handler kinds restartOnCancel / selBackoff / sdrBackoff have the exhaustive fault-injection run only '
-    '(correspondence-level evidence)',
+    'Prog models of the handlers and of the SEL / SDR operations (lean/PyIpmi/Model/Prog.lean, ProgMore.lean, '
+    'ProgOps.lean) are hand-written and tied by the correspondence run (outcome, returned bytes, request trace on the '
+    'same fault scripts); skeletons, shape classes, own handler kinds, handler codes and loop constants are '
+    'regenerated from the source each run (Gen/ApiShapes.lean)',
+    'every public operation is covered by a theorem (kernel-decided table_covered): checked / nosend skeletons, the '
+    'modelled leaves (operations with handlers of their own), compositions of covered operations '
+    '(composition_fault_safe / composition_multi_safe: every resolution of the generated skeleton, provided each '
+    'modelled leaf is safe on the states it is reached in -- the device hypotheses of the leaf theorems are assumed '
+    'there: consistent FRU / SEL / SDR storage, the HPM action and status query succeed fault-free); primitives '
+    '(send_message, raw_command hand the code to the caller) and transport operations (open, close, '
+    'is_ipmc_accessible, wait_until_ipmb_is_accessible exchange no IPMI message) are listed with that reason',
+    'get_sel_entry: the theorems admit at most 16 answers CAh per fault set (the 17th makes the pinned code issue '
+    'zero-length reads for ever: liveness, outside this property; the model saturates where Python goes negative); '
+    'get_and_clear_sel_entry: any finite fault set, the model given more rounds than the last fault position',
     'the BMC is a fixed script (answers depend on the request only); a faulted answer is the bare code '
     '(sampled: code followed by the OK payload)',
     'wall-clock time in the polling loops is a virtual clock (Python) / a poll budget (Lean)',
@@ -356,6 +365,8 @@ def translate(ctx):
     global _gen
     registry.generate()
     _gen = api.generate()
+    for n in api.LOOP_CONST_NOTES:
+        ctx.notes.append(n)
 
 
 def judge(op, faults, free, bad):
@@ -568,18 +579,14 @@ def _run(ctx, sw):
             ctx.disagree('skeleton-replay', case, got, want)
     _variants(ctx, sw, rng)
     _handlers(ctx, sw, drv, rng)
+    _op_models(ctx, sw, drv, rng)
     _report(ctx, sw, baseline_broken)
     ctx.extra['uncalled_ops'] = uncalled
     ctx.extra['public_ops'] = len(ops)
     ctx.extra['shape_census'] = census
     ctx.extra['request_positions'] = sum(positions.values())
     ctx.extra['baseline_python_errors'] = baseline_broken
-    ctx.extra['theorem_scope'] = {
-        'covered_by_theorems': sorted(o for o in ops if _shape_of(sw, o) in ('checked', 'nosend')),
-        'handler_models_with_theorem': ['sdrChunk', 'clearRenew', 'hpmWait', 'fruBackoff', 'skipInvalidSelector(intended)'],
-        'correspondence_only': sorted(o for o in ops if _shape_of(sw, o) in ('other', 'loop', 'primitive')),
-        'other_reasons': dict((e['name'], e['reason']) for e in sw.entries if e['public'] and e['shape'] == 'other'),
-    }
+    _scope(ctx, sw, drv, ops)
     ctx.sample({'op': 'read_fru_data', 'fault': [1, 0xCA], 'outcome': 'recovered: same bytes after request-size back-off'})
     ctx.sample({'op': 'set_user_password', 'fault': [0, 0xCC], 'outcome': 'CompletionCodeError cc=0xcc'})
 
@@ -696,6 +703,188 @@ def _handlers(ctx, sw, drv, rng):
         ctx.count('handler-model:' + ('agree' if got == want else 'differ'))
         if got != want:
             ctx.disagree('handler-model:' + label, {'op': op, 'faults': [list(x) for x in fs]}, got, want)
+
+
+
+LEAF_MODELS = {0: 'readFru', 1: 'andWait', 2: 'uploadBinary', 3: 'componentProps', 4: 'getAndClear', 5: 'selEntry',
+               6: 'sdrChunk', 7: 'sdrData', 8: 'clearLoop'}
+COVER_THEOREMS = {
+    'skeleton': 'skeleton_fault_safe, skeleton_multi_fault_safe',
+    'composite': 'composition_fault_safe, composition_multi_safe (+ listing_multi_safe, sel_entries_multi_safe, '
+                 'sdr_entries_multi_safe, script_*_entries_multi_safe for the listings)',
+    'primitive': 'primitive_carries_code (send_message, raw_command: the code is handed to the caller); '
+                 'send_message_with_name is sendChecked (checked_fault_safe)',
+    'transport': 'no IPMI message is exchanged through send_message: no request position exists to answer with a '
+                 'completion code (the skeleton issues nothing; skeleton_fault_safe applies vacuously)',
+    'leaf:0': 'read_fru_fault_safe, read_fru_multi_safe, op_read_fru_data_*',
+    'leaf:1': 'hpm_and_wait_fault_safe, hpm_and_wait_multi_safe',
+    'leaf:2': 'upload_binary_fault_safe, upload_binary_multi_safe',
+    'leaf:3': 'component_props_intended_fault_safe, component_props_intended_multi_safe',
+    'leaf:4': 'get_and_clear_multi_safe, get_and_clear_fault_safe, script_get_and_clear_multi_safe',
+    'leaf:5': 'sel_entry_exact, sel_entry_multi_safe, sel_entry_fault_safe, script_get_sel_entry_multi_safe',
+    'leaf:6': 'sdr_chunk_fault_safe, sdr_chunk_multi_safe',
+    'leaf:7': 'sdr_data_loop_multi_safe, sdr_data_multi_safe, sdr_record_multi_safe, sdr_record_fault_safe, '
+              'script_get_sdr_multi_safe',
+    'leaf:8': 'clear_repository_fault_safe, clear_repository_multi_safe',
+    'asShipped': 'component_props_as_shipped_counterexample / channel_auth_caps_as_shipped_counterexample',
+}
+
+
+def _scope(ctx, sw, drv, ops):
+    """Which theorem covers which public operation -- asked of the Lean function `covers` that the
+    kernel-decided theorem table_covered evaluates."""
+    idx = [sw.by_name[o]['index'] for o in ops if o in sw.by_name]
+    names = [o for o in ops if o in sw.by_name]
+    got = drv.ask_many(['cover %d' % i for i in idx])
+    by_cover = {}
+    for o, c in zip(names, got):
+        by_cover.setdefault(c, []).append(o)
+        ctx.count('cover:' + c.split(':')[0])
+    unknown = sorted(o for o in ops if o not in sw.by_name)
+    ctx.extra['theorem_scope'] = {
+        'proved': dict((c, sorted(v)) for c, v in sorted(by_cover.items()) if c not in ('none', 'primitive', 'transport')),
+        'listed_with_reason': dict((c, {'operations': sorted(by_cover.get(c, [])), 'reason': COVER_THEOREMS[c]})
+                                   for c in ('primitive', 'transport')),
+        'correspondence_only': sorted(by_cover.get('none', []) + unknown),
+        'theorems': COVER_THEOREMS,
+        'leaf_models': LEAF_MODELS,
+        'other_reasons': dict((e['name'], e['reason']) for e in sw.entries if e['public'] and e['shape'] == 'other'),
+    }
+    if by_cover.get('none') or unknown:
+        ctx.disagree('cover', {'ops': sorted(by_cover.get('none', []) + unknown)},
+                     'every public operation is covered by a theorem', 'not covered')
+
+
+# ---- the SEL / SDR operation models (lean/PyIpmi/Model/ProgOps.lean) ----------------------------------
+
+REQ_TAGS = {'GetSelInfo': 20, 'ReserveSel': 21, 'GetSelEntry': 22, 'DeleteSelEntry': 23,
+            'ReserveSdrRepository': 30, 'ReserveDeviceSdrRepository': 30, 'GetSdr': 31, 'GetDeviceSdr': 31}
+
+
+def _req_token(name, hexpayload):
+    """One request of the real trace in the driver's vocabulary (fields as numbers)."""
+    t = REQ_TAGS.get(name)
+    if t is None:
+        return '?' + name
+    b = bytes.fromhex(hexpayload)
+    if t in (22, 31):
+        return '%d.%d.%d.%d.%d' % (t, b[0] | b[1] << 8, b[2] | b[3] << 8, b[4], b[5])
+    if t == 23:
+        return '%d.%d.%d' % (t, b[0] | b[1] << 8, b[2] | b[3] << 8)
+    return '%d' % t
+
+
+def _attr(obj, name):
+    """Attribute of a canonicalised object (['obj', class, [[name, value], ...]])."""
+    if isinstance(obj, list) and len(obj) == 3 and obj[0] == 'obj':
+        for k, v in obj[2]:
+            if k == name:
+                return v
+    return None
+
+
+def _hex_of(v):
+    return (v[1] or '-') if isinstance(v, list) and len(v) == 2 and v[0] == 'bytes' else '?'
+
+
+def _recs(table):
+    return ';'.join('%d:%s' % (rid, bytes(bytearray(d)).hex()) for rid, d in table) if table else '-'
+
+
+def _op_models(ctx, sw, drv, rng):
+    """K for the SEL / SDR operations: the real operation and its Lean model (the ones the theorems
+    script_* are about) on the same device contents and the same fault scripts -- outcome, returned
+    bytes and the complete request trace."""
+    codes = sw.codes if ctx.tier == 'thorough' else QUICK_CODES
+    bmc = fi.Bmc()
+    res = bmc.answer('ReserveSel', b'')
+    res_id = res[1] | res[2] << 8
+    dev = '%d %s %s' % (res_id, _recs(bmc.sels), _recs(bmc.sdrs))
+
+    def v_entry(val):
+        return '%s %d' % (_hex_of(_attr(val[0], 'data')), val[1])
+
+    def v_entries(val):
+        return ','.join(_hex_of(_attr(x, 'data')) for x in val) if val else '-'
+
+    def v_obj(val):
+        return _hex_of(_attr(val, 'data'))
+
+    def v_sdr(val):
+        return '%d %s' % (_attr(val, 'next_id'), _hex_of(_attr(val, 'data')))
+
+    def v_sdrs(val):
+        return ','.join('%d:%s' % (_attr(x, 'next_id'), _hex_of(_attr(x, 'data'))) for x in val) if val else '-'
+
+    CA, C5 = 0xCA, 0xC5
+    plan = [
+        # label, op, recipe index, driver line prefix, value printer, directed fault scripts
+        ('sel-entry', 'get_sel_entry', 0, 'selentry %s %d 1' % (dev, recipes('get_sel_entry')[0].get('reservation', 0)), v_entry,
+         [[(i, CA) for i in range(m)] for m in range(2, 17)] +
+         [[(i, CA) for i in range(m)] + [(m, 0xD5)] for m in (1, 3, 16)] +
+         [[(0, CA), (2, CA), (3, 0xC1)], [(1, CA), (2, CA)], [(0, CA), (1, 0xCB), (2, CA)]]),
+        ('sel-entries', 'sel_entries', 0, 'selentries %s 100' % dev, v_entries,
+         [[(2, CA), (3, CA)], [(2, CA), (4, CA), (5, CA)], [(3, CA), (4, 0xCB)], [(2, CA), (3, CA), (4, CA), (6, 0xC5)]]),
+        ('sel-entries-list', 'get_sel_entries', 0, 'selentries %s 100' % dev, v_entries, [[(3, CA), (4, CA)]]),
+        ('get-and-clear', 'get_and_clear_sel_entry', 0, 'getclear %s 1 60' % dev, v_obj,
+         [[(1, C5)], [(2, C5)], [(1, C5), (3, C5)], [(1, C5), (4, C5)], [(2, C5), (5, C5)], [(1, C5), (3, C5), (5, C5)],
+          [(1, CA), (3, C5)], [(1, CA), (2, C5), (4, CA), (6, C5)], [(1, C5), (2, 0xD5)], [(0, C5)],
+          [(1, C5), (3, C5), (5, C5), (7, C5), (9, C5), (11, C5)]]),
+    ]
+    for label, op, prefix in (('sdr-repo', 'get_repository_sdr', 'sdr %s' % dev), ('sdr-dev', 'get_device_sdr', 'sdr %s' % dev)):
+        for ri, (resarg, rid) in enumerate((('-', 0), ('772', 2))):
+            plan.append(('%s-%d' % (label, ri), op, ri, '%s %s %d' % (prefix, resarg, rid), v_sdr,
+                         [[(k, CA) for k in range(2, 2 + m)] for m in range(1, 7)] +
+                         [[(2, CA), (3, C5)], [(2, C5), (4, C5)], [(2, 0xC3), (3, 0xCE), (4, 0xC3)],
+                          [(1, 0xC3), (2, 0xC3), (3, 0xC3), (4, 0xC3)], [(2, CA), (4, CA), (5, 0xC9)],
+                          [(1, C5), (2, 0xD5)], [(2, C5), (3, 0xC1)]]))
+    for label, op in (('sdr-repo-entries', 'sdr_repository_entries'), ('sdr-dev-entries', 'device_sdr_entries'),
+                      ('sdr-repo-list', 'get_repository_sdr_list'), ('sdr-dev-list', 'get_device_sdr_list')):
+        plan.append((label, op, 0, 'sdrlist %s 100' % dev, v_sdrs,
+                     [[(2, CA), (5, CA)], [(3, CA), (4, CA), (6, C5)], [(6, CA), (7, CA), (8, CA), (9, CA), (10, CA)],
+                      [(5, 0xCB)], [(3, C5), (4, C5)]]))
+    lines, meta = [], []
+    for label, op, ri, prefix, show, directed in plan:
+        try:
+            rec = recipes(op)[ri]
+        except (Uncallable, IndexError, AttributeError):
+            ctx.disagree('op-model:' + label, {'op': op}, 'operation callable', 'no recipe / not there')
+            continue
+        free = execute(op, rec, sw.env)
+        n = len(free['trace'])
+        fsets = [[]] + [[(k, c)] for k in range(n) for c in codes] + directed
+        for _ in range(30 if ctx.tier == 'quick' else 300):
+            m = rng.choice([2, 2, 3, 4, 6])
+            ks = sorted(rng.sample(range(n + 6), min(m, n + 6)))
+            fsets.append([(k, rng.choice([CA, CA, C5, 0xC3, 0xCE, 0xCB, 0xC1, rng.choice(codes)])) for k in ks])
+        for fs in fsets:
+            if op == 'get_sel_entry' or 'sel_entries' in op or op == 'get_and_clear_sel_entry':
+                if sum(1 for (_, c) in fs if c == CA) > 16:
+                    continue        # outside the model: Python's request length goes below zero
+            real = execute(op, rec, sw.env, 'default', dict((k, (c, False)) for k, c in fs))
+            want = tag(real)
+            if real['kind'] == 'ok':
+                try:
+                    want += ' ' + show(real['value'])
+                except Exception as e:  # noqa -- an unexpected result shape is a disagreement, shown as such
+                    want += ' ?%s' % type(e).__name__
+            want += ' | ' + (','.join(_req_token(nm, h) for (nm, h) in real['trace']) or '-')
+            lines.append('%s %s' % (prefix, ','.join('%d:%d' % kc for kc in fs) if fs else '-'))
+            meta.append((label, op, ri, fs, want))
+            ctx.case(('op-model', label, tuple(fs)))
+            ctx.count('op-model:' + label)
+    for (label, op, ri, fs, want), got in zip(meta, drv.ask_many(lines)):
+        ctx.count('op-model-compare:' + ('agree' if got == want else 'differ'))
+        if got != want:
+            ctx.disagree('op-model:' + label, {'op': op, 'recipe': ri, 'faults': [list(x) for x in fs]}, got, want)
+    # the primitives: the code is in what the caller gets (Lean: primitive_carries_code)
+    for c in rng.sample(codes, 3):
+        got = drv.ask('raw 0:%d' % c)
+        real = execute('raw_command', recipes('raw_command')[0], sw.env, 'default', {0: (c, False)})
+        want = 'ok %s %d' % (real.get('carried'), len(real['trace'])) if real['kind'] == 'ok' else tag(real)
+        ctx.count('op-model-compare:' + ('agree' if got == want else 'differ'))
+        if got != want:
+            ctx.disagree('op-model:raw_command', {'op': 'raw_command', 'faults': [[0, c]]}, got, want)
 
 
 def _report(ctx, sw, baseline_broken):
